@@ -328,6 +328,9 @@ Definition check_q (c : ccase) : string :=
       let r := hull_check g c in
       if String.eqb r "" then first_msg (map (probes_check c g) (c_probes c)) else r.
 
+(* both verdicts are reported: the bit-exact tie (a) and the independent semantics (b)/(c) *)
 Definition check (c : ccase) : string :=
-  let r := check_float c in if String.eqb r "" then check_q c else r.
+  let rf := check_float c in
+  let rq := check_q c in
+  if String.eqb rf "" then rq else if String.eqb rq "" then rf else (rf ++ "+" ++ rq)%string.
 End Chk.
